@@ -218,6 +218,50 @@ def enc_x(v):
     return enc_rat(v)
 
 
+def SX(x, dt="float64", **kw):
+    """array request with values sent as strings (json cannot carry inf / nan)"""
+    x = np.asarray(x)
+    d = {"dtype": dt, "shape": list(x.shape), "data": [repr(float(v)) for v in x.ravel()], "via": "U32"}
+    d.update(kw)
+    return d
+
+
+def tmi_range_source():
+    """the three assignments `range_min = …`, `range_max = …`, `scaling = …` of
+    `_test_mutual_information` as they stand in the current timeseries/_ext/numerics.pyx, compiled
+    as Python expressions (they are Python-level NumPy expressions inside the `cdef` block), or None
+    when they cannot be read"""
+    import re
+    try:
+        text = open(os.path.join(common.REPO, "src", "pyunicorn", "timeseries", "_ext",
+                                 "numerics.pyx")).read()
+        m = re.search(r"^def _test_mutual_information\((.*?)\):\n(.*?)(?=^def |^cdef |\Z)", text,
+                      re.S | re.M)
+        body = re.sub(r"#[^\n]*", "", m.group(2))
+        out = {}
+        for name in ("range_min", "range_max", "scaling"):
+            mm = re.search(rf"DFIELD_t {name} = ((?:[^\n]*\\\n)*[^\n]*)", body)
+            out[name] = compile(mm.group(1).replace("\\\n", " ").strip(), f"<{name}>", "eval")
+        return out
+    except Exception:  # noqa
+        return None
+
+
+def tmi_range_eval(code, d1, d2):
+    """what those expressions give for two float64 arrays: range_min, range_max as C doubles
+    (`DFIELD_t`), the division with Cython's ZeroDivisionError (cdivision is off)"""
+    with np.errstate(all="ignore"):
+        env = {"np": np, "original_data": np.ascontiguousarray(d1, dtype=np.float64),
+               "surrogates": np.ascontiguousarray(d2, dtype=np.float64)}
+        rmin = float(eval(code["range_min"], dict(env)))
+        rmax = float(eval(code["range_max"], dict(env)))
+        try:
+            sc = float(eval(code["scaling"], {"range_min": rmin, "range_max": rmax, "np": np}))
+        except ZeroDivisionError:
+            sc = None
+    return rmin, rmax, sc
+
+
 def enc_xdata(M):
     M = np.asarray(M)
     if M.size == 0:
@@ -537,6 +581,109 @@ def run(ctx):
         d1, d2 = dyadic(nprng, s1), dyadic(nprng, s2)
         add_api("tmi", f"call tmi {s1[0]} {s1[1]} {s2[0]} {s2[1]} 4 {enc_data(d1)} {enc_data(d2)}",
                 [A(d1, "float64"), A(d2, "float64")], [4], "surrogates-shape-differs", (s1, s2))
+    # `Surrogates.test_mutual_information` on IEEE data (round 5): +-inf / NaN in either or both
+    # arrays, whole rows / whole arrays infinite, a constant finite part, both float widths and
+    # layouts, directly and through an instance; verdict against `tmiCallX` (range terms from the
+    # generated tables), and the range itself — the source's own three expressions evaluated by
+    # NumPy — against the model's NaN-propagating folds (`range tmix`), exactly
+    rsrc = tmi_range_source()
+    rlean, rimpl = [], []
+    xkinds = ["inf-orig", "ninf-orig", "inf-surr", "ninf-surr", "both-signs", "all-inf", "all-ninf",
+              "inf+nan", "row-inf", "const+inf", "const+ninf", "finite", "nan-only", "opposite-arrays", "const"]
+    xshapes = [(1, 1), (1, 2), (2, 1), (2, 3), (3, 2), (1, 5), (5, 1), (3, 5)]
+    for c in range(30 if quick else 180):
+        kind = xkinds[c % len(xkinds)]
+        m, T = xshapes[(c // len(xkinds)) % len(xshapes)] if c < 8 * len(xkinds) else \
+            (rng.randrange(1, 7), rng.randrange(1, 8))
+        pw = rng.choice([0, 0, 1, -3, 10, -30])
+        lo = rng.choice([0.0, -1.0, 2.0]) * 2.0 ** pw
+        d1, d2 = dyadic(nprng, (m, T), lo, pw), dyadic(nprng, (m, T), lo, pw)
+        P, M_ = float("inf"), float("-inf")
+        pick = lambda d: (rng.randrange(m), rng.randrange(T))  # noqa
+        if kind == "inf-orig":
+            d1[pick(d1)] = P
+        elif kind == "ninf-orig":
+            d1[pick(d1)] = M_
+        elif kind == "inf-surr":
+            d2[pick(d2)] = P
+        elif kind == "ninf-surr":
+            d2[pick(d2)] = M_
+        elif kind == "both-signs":
+            d1[pick(d1)] = rng.choice([P, M_])
+            d2[pick(d2)] = rng.choice([P, M_])
+            if rng.random() < 0.5 and m * T > 1:
+                d1[pick(d1)] = rng.choice([P, M_])
+        elif kind == "all-inf":
+            d1[:] = P
+            d2[:] = P if rng.random() < 0.5 else d2
+        elif kind == "all-ninf":
+            d1[:] = M_ if rng.random() < 0.5 else d1
+            d2[:] = M_
+        elif kind == "inf+nan":
+            d1[pick(d1)] = rng.choice([P, M_])
+            (d2 if rng.random() < 0.5 else d1)[pick(d1)] = np.nan
+        elif kind == "row-inf":
+            d2[rng.randrange(m), :] = rng.choice([P, M_])
+        elif kind == "const+inf":
+            d1[:] = lo
+            d2[:] = lo
+            d2[pick(d2)] = P
+        elif kind == "const+ninf":
+            d1[:] = lo
+            d2[:] = lo
+            d1[pick(d1)] = M_
+        elif kind == "nan-only":
+            d2[pick(d2)] = np.nan
+        elif kind == "const":               # range 0: ZeroDivisionError
+            d1[:] = lo
+            d2[:] = lo
+        elif kind == "opposite-arrays":     # one array entirely +inf, the other entirely -inf
+            d1[:] = P
+            d2[:] = M_
+        nb = rng.choice([1, 2, 3, 4, 32, 64]) if c % 9 else rng.choice([0, -1, 2 ** 31])
+        s2 = (m, T) if c % 11 else rng.choice([(m, T + 1), (m + 1, T), (T, m + 2)])
+        if s2 != (m, T):
+            d2 = np.resize(d2, s2)
+        cls = ("n_bins<1" if nb < 1 else "n_bins>=2^31" if nb >= 2 ** 31 else
+               "same-shape" if s2 == (m, T) else "surrogates-shape-differs") + ":ieee:" + kind
+        lean = f"call tmix {m} {T} {s2[0]} {s2[1]} {nb} {enc_xdata(d1)} {enc_xdata(d2)}"
+        lay = lambda: rng.choice([{}, {}, {"order": "F"}, {"stride2": True}])  # noqa
+        arrs = [SX(d1, fdt(), **lay()), SX(d2, fdt(), **lay())]
+        canon = (m, T, s2, nb, kind, d1.tobytes().hex(), d2.tobytes().hex())
+        sample = {"entry": "Surrogates.test_mutual_information", "shape": [m, T], "n_bins": nb,
+                  "data": "IEEE: " + kind} if c < 14 else None
+        if c % 3 == 2:
+            own = (rng.randrange(1, 5), rng.randrange(2, 7))
+            add_api("surr_obj", lean, arrs, [own[0], own[1], "tmi", nb], cls, (own,) + canon, True, sample)
+        else:
+            add_api("tmi", lean, arrs, [nb], cls, canon, True, sample)
+        if s2 == (m, T):
+            if rsrc is None:
+                rlean.append(f"range tmix {enc_xdata(d1)} {enc_xdata(d2)}")
+                rimpl.append("source-unreadable")
+                continue
+            try:
+                rmin, rmax, sc = tmi_range_eval(rsrc, d1, d2)
+            except Exception as e:  # noqa
+                rlean.append(f"range tmix {enc_xdata(d1)} {enc_xdata(d2)}")
+                rimpl.append("source-raises:" + type(e).__name__)
+                continue
+            exact = True
+            if sc is not None and np.isfinite(sc) and np.isfinite(rmax - rmin) and rmax != rmin:
+                exact = Fraction(sc) == 1 / (Fraction(rmax) - Fraction(rmin))
+            if not exact:
+                ctx.count("range-tie:skipped-inexact-reciprocal")
+                continue
+            rlean.append(f"range tmix {enc_xdata(d1)} {enc_xdata(d2)}")
+            rimpl.append(f"{enc_x(rmin)} {enc_x(rmax)} " + ("zerodiv" if sc is None else enc_x(sc)))
+            ctx.case(("range", d1.tobytes().hex(), d2.tobytes().hex()), True,
+                     {"range of": "_test_mutual_information", "data": kind, "range_min": enc_x(rmin),
+                      "range_max": enc_x(rmax), "scaling": "zerodiv" if sc is None else enc_x(sc)}
+                     if len(rlean) <= 6 else None)
+            ctx.count("range-tie:min=" + ("nan" if rmin != rmin else "-inf" if rmin == M_ else
+                                          "inf" if rmin == P else "finite") +
+                      ":scaling=" + ("zerodiv" if sc is None else "nan" if sc != sc else
+                                     "0" if sc == 0 else "finite"))
     # caller arrays whose shape DIFFERS from the object's own, on real objects: every public method
     # that forwards a caller-supplied array to a raw-pointer routine (the sizes handed to the C
     # routine must be those of the array, not of the object)
@@ -723,6 +870,10 @@ def run(ctx):
                    amodel, impl)
     for q, v in zip(areqs, impl):
         ctx.count(f"api-verdict:{v}")
+    ctx.correspond("range_min / range_max / scaling of _test_mutual_information: the source's own "
+                   "expressions evaluated by NumPy on IEEE data == NaN-propagating folds of the Lean "
+                   "wrapper model (generated range terms)", rlean, rimpl)
+    ctx.extra["range_ties"] = len(rlean)
     kimpl = []
     for q, valid in zip(kreqs, kvalid):
         r = ares[q["id"]]
